@@ -549,6 +549,12 @@ class DataFileManager:
 
         # Convert path for PyArrow (adds bucket prefix for S3)
         arrow_path = self._get_arrow_path(file_path)
+        if isinstance(self.storage, LocalStorageBackend) and arrow_path == self.storage._real_base_path():
+            # The writer's temp file is created next to its target; for a path
+            # that resolves to the table root itself that is the root's parent.
+            raise ValueError(
+                f"Security Error: '{file_path}' resolves to the table root itself, not to a file inside it"
+            )
 
         # Convert records to Arrow table to compute statistics before writing
         lower_bounds = None
